@@ -685,3 +685,77 @@ Proof.
     split; [exact Hi|]. split; [reflexivity|]. intros He. split; [exact He|]. split; [reflexivity|].
     intros _ _. exists []. split; [exact Hb | constructor].
 Qed.
+
+(* ------------------------------------------------------------------ the shape of parsed versions *)
+Definition padz (l : list Z) : list Z := l ++ repeat 0 (3 - length l).
+
+Lemma pad3_spec : forall fuel l, pad3 l fuel = l ++ repeat 0 (Nat.min fuel (3 - length l)).
+Proof.
+  induction fuel as [|f IH]; intros l; cbn [pad3].
+  - cbn [Nat.min repeat]. rewrite app_nil_r. reflexivity.
+  - destruct (Nat.ltb_spec (length l) 3) as [H|H].
+    + rewrite IH, app_length. cbn [length]. rewrite <- app_assoc. f_equal.
+      replace (3 - length l)%nat with (S (3 - (length l + 1))) by lia.
+      rewrite <- Nat.succ_min_distr. reflexivity.
+    + replace (3 - length l)%nat with 0%nat by lia. rewrite Nat.min_0_r. cbn [repeat]. rewrite app_nil_r. reflexivity.
+Qed.
+
+Lemma pad3_padz l : pad3 l 3 = padz l.
+Proof. rewrite pad3_spec. unfold padz. f_equal. f_equal. lia. Qed.
+
+Lemma zero_ok sy : numval_ok sy 0.
+Proof. right. unfold infinity. lia. Qed.
+
+Lemma finish_nums_wf sy nums : family sy -> nums_wf sy nums -> nums_wf sy (finish_nums sy nums).
+Proof.
+  intros F (W1 & W2 & W3 & W4). unfold finish_nums. rewrite (family_not_gems sy F). cbn [orb].
+  destruct (sys_eqb sy SNuGet) eqn:EN; [|split; [exact W1|split; [exact W2|split; [exact W3|intros Hx; congruence]]]].
+  rewrite pad3_padz. unfold padz.
+  assert (ESy : sy = SNuGet) by (destruct sy; try (cbv in EN; discriminate EN); reflexivity). subst sy.
+  cbn [lenok] in *. apply Nat.leb_le in W2.
+  split; [apply Forall_app; split; [exact W1 | apply Forall_forall; intros x Hx; apply repeat_spec in Hx; subst x; apply zero_ok]|].
+  split; [apply Nat.leb_le; rewrite app_length, repeat_length; lia|].
+  split; [destruct nums; [congruence | discriminate]|].
+  intros _ H4. rewrite app_length, repeat_length in H4.
+  assert (E4 : length nums = 4%nat) by lia.
+  replace (3 - length nums)%nat with 0%nat by lia. cbn [repeat]. rewrite app_nil_r. apply W4; auto.
+Qed.
+
+Definition wf_parsed (sy : system) (v : version) : Prop :=
+  v_sys v = sy /\ v_ext v = NoExt /\ nums_wf sy (v_num v) /\
+  Forall (fun x => elemb sy x = true) (v_pre v) /\
+  exists bl, v_build v = r_build bl /\ Forall (fun x => elemb sy x = true) bl.
+
+Theorem parse_front_wf sy str v b : family sy -> parse_front sy false str = Ok (v, b) -> wf_parsed sy v.
+Proof.
+  intros F. unfold parse_front. cbn [andb].
+  destruct (pf_prefix_good sy str) as (I1 & G1).
+  destruct (pf_numbers sy str (pf_prefix sy false str)) as [[r p2]|] eqn:En; [|discriminate].
+  destruct (pf_numbers_good sy str _ r p2 I1 En) as (I2 & P2 & B2 & G2).
+  destruct ((r =? 46) && Nat.ltb (length (ps_num p2)) 3 && negb (sys_eqb sy SRubyGems)); [discriminate|].
+  rewrite (family_not_gems sy F). cbn [andb].
+  destruct (pf_pre sy r p2) as [[r5 p5]| | |] eqn:E5; try discriminate.
+  destruct (pf_pre_good sy r p2 r5 p5 F I2 P2 E5) as (I5 & N5 & B5 & G5).
+  destruct (pf_build sy str r5 p5) as [[r7 p7]| | |] eqn:E7; try discriminate.
+  destruct (pf_build_good sy str r5 p5 r7 p7 F I5 ltac:(congruence) E7) as (I7 & N7 & G7).
+  unfold pf_finish.
+  destruct (r7 =? r_eof) eqn:Er; cbn [negb].
+  2:{ cbn. discriminate. }
+  destruct (l_err (ps_lex p7)) eqn:Ee; [discriminate|].
+  intros H; inversion H; subst v b. clear H. apply Z.eqb_eq in Er.
+  destruct (G7 eq_refl) as (Ee5 & P7 & Gb). destruct (G5 Ee5) as (Ee2 & Fpre & cs5 & A5 & R5).
+  destruct (G2 Ee2) as (Ee1 & Wn & cs2 & A2 & R2). pose proof (G1 Ee1) as PI1.
+  pose proof (PI_adv _ _ _ _ _ _ PI1 A2 R2) as PI2. pose proof (PI_adv _ _ _ _ _ _ PI2 A5 R5) as PI5.
+  destruct (Gb PI5 Er) as (bl & Eb & Fb).
+  unfold wf_parsed, mk_version. cbn [v_sys v_ext v_num v_pre v_build].
+  split; [reflexivity|]. split; [reflexivity|].
+  split; [fold (finish_nums sy (ps_num p7)); rewrite N7, N5; apply finish_nums_wf; assumption|].
+  split; [rewrite P7; exact Fpre|]. exists bl. split; [exact Eb | exact Fb].
+Qed.
+
+Theorem parse_wf sy s v : family sy -> parse sy s = Ok v -> wf_parsed sy v.
+Proof.
+  intros F. unfold parse, parse_internal. destruct (possible_version_string sy s); [|discriminate].
+  destruct (parse_front sy false s) as [[v' b]| | |] eqn:E; try discriminate.
+  intros H; inversion H; subst v'. exact (parse_front_wf sy s v b F E).
+Qed.
